@@ -156,7 +156,7 @@ int main(int argc, char **argv) {
     const int64_t nlegacy = sizeof(kLegacy) / sizeof(kLegacy[0]);
     std::string bytes, desc, cls;
     if (k < nlegacy) {
-      bytes = ReadFile(std::string("/repo/testdata/") + kLegacy[k]);
+      bytes = ReadFile((vf::RepoRoot() + "/testdata/") + kLegacy[k]);
       desc = std::string("legacy ") + kLegacy[k];
       if (bytes.size() < 11) { rep.count("legacy_missing"); rep.held(0, false); return; }
     } else {
